@@ -417,6 +417,12 @@ def _roundtrip(M, r, localized):
         tzf = "Z"       # the open finding on `d` moves the date: with an explicit offset no zone rule re-normalises the moved value
     glue = r.choice((" ", "T", " [at] ", " [the time is] ", ", ", " [xx] ")) if r.random() < 0.5 else " "
     fmt = dform + glue + tform + frac + ((" " + tzf) if tzf else "")
+    if localized and "dd" not in fmt and r.random() < 0.35:
+        # the weekday name as the very last thing in the string (names that are prefixes of one another: tr Cuma / Cumartesi)
+        wtok = r.choice(("dddd", "ddd"))
+        vals = list(dig(D, "translations.days." + ("wide" if wtok == "dddd" else "abbreviated")).values())
+        if len(set(v.lower() for v in vals)) == len(vals):
+            fmt = fmt + " " + wtok
     # what survives the trip
     us = x.microsecond // 10 ** (6 - nd) * 10 ** (6 - nd) if nd else 0
     sec = 0 if tflag == "nosec" else x.second
